@@ -15,7 +15,7 @@ import vlib
 from props.c02 import mk_cfg
 
 TOKEN = re.compile(rb"<(\d+),(\d+),(\d+),(\d+)\|[^<>]*>")
-BETWEEN_OK = re.compile(rb"(?:\x1b\[[0-9;]*m?|[0-9;]*m|\n|\xac)*")
+BETWEEN_OK = re.compile(rb"(?:\x1b\[[0-9;]*m?|[0-9;]*m|\n|\xac|\x07|\x08)*")
 
 
 def run_child(vh, threads, calls, stream, env_extra):
@@ -62,6 +62,11 @@ def tokenize(data):
             # held back, the next fragment arrives while this call is still open)
             evs.append({"t": t, "c": c, "f": 2, "n": 2})
             pos += 2
+        if n == 2 and f == 1 and data[pos:pos + 2] == b"\x1b[":
+            # pass-through mode: the opening bytes of a sequence that the call's buffer ends with are the call's second fragment
+            # (what follows is the next call's "0m" or, legitimately, another thread's record; only the two-fragment records end so)
+            evs.append({"t": t, "c": c, "f": 2, "n": 2})
+            pos += 2
         if n == 4 and f == 3 and data[pos:pos + 1] == b"\n":
             # the call's own newline, directly behind its third fragment, is its fourth fragment (if it is not there,
             # the next fragment arrives while the call is still open and the trace is rejected there)
@@ -82,7 +87,8 @@ def print_part(chk, vh, quick):
         calls = 150 if quick else 600
         data = run_child(vh, threads, calls, stream, env)
         evs = tokenize(data)
-        expect = sum(4 if (c + t) % 11 in (0, 1, 2, 4) else 2 if (c + t) % 11 == 10 else 3 for t in range(1, threads + 1) for c in range(1, calls + 1))
+        expect = sum(4 if (c + t) % 13 in (0, 1, 2, 4) else 2 if (c + t) % 13 == 10 else (2 if env else 1) if (c + t) % 13 == 11 else 3
+                     for t in range(1, threads + 1) for c in range(1, calls + 1))
         mode = "pass-through" if env else "strip"
         if env and b"\x1b[" not in data:
             raise vlib.ToolError("pass-through mode expected but no escape sequence reached the pipe")
